@@ -306,6 +306,7 @@ def run_real(sb_dir, case, variant='v0', cwd_mode=None, loc='+loc+', keep_inputs
                     elif spelled in ('dot', 'updir') and inp['kind'] == 'dir':
                         os.chdir(p); arg = '.'
                     else: arg = p
+                    if case.get('outputs'): settings.output.directory = os.path.join(base, case['outputs'][k])     # same Settings object, sent to another directory for this input
                     if inp['kind'] == 'dir':
                         with imposed_listing(p, inp['children']): cminx.document(arg, settings)
                     else: cminx.document(arg, settings)
@@ -322,6 +323,7 @@ def run_real(sb_dir, case, variant='v0', cwd_mode=None, loc='+loc+', keep_inputs
     after = snapshot(base)
     results['stdout'] = stdout.getvalue()
     results['files'] = read_tree(out_abs) if out_abs else {}
+    if case.get('outputs'): results['files_by_output'] = {o: read_tree(os.path.join(base, o)) for o in case['outputs']}
     out_rel = (os.path.relpath(out_abs, base) + os.sep) if out_abs else None
     changed = {}
     for pth in set(before) | set(after):
